@@ -182,7 +182,7 @@ theorem flip_same_pair_location (V V' : Verifier) (tbl : List AlgEntry) (w : Byt
   have hl' := flipBit_length w i
   have hne := flipBit_getElem_eq w i hi
   have hag : ∀ x, x ≠ i / 8 → (flipBit w i)[x]? = w[x]? := fun x hx => flipBit_getElem_ne w i x hx
-  obtain ⟨hs, hbody, hoid, ht, hf, hrest⟩ :=
+  obtain ⟨hs, hbody, _, hoid, ht, hf, hrest⟩ :=
     same_input_same_content V V' tbl w (flipBit w i) k now now' rm ctx multi s s' p p' o o' rd rd' c c' c1 c1' ho ho' a a' hd.symm
   obtain ⟨herr, hoth⟩ := hrest hfirst
   subst hs
